@@ -322,8 +322,8 @@ func runC04(c *Ctx) int {
 		run.Sample(v.Detail.Case)
 		return run.Finish()
 	}
-	shards := c.Pick(16, 48)
-	per := c.Pick(12, 42)
+	shards := c.Pick(16, 64)
+	per := c.Pick(12, 250)
 	var specs []childSpec
 	for i := 0; i < shards; i++ {
 		specs = append(specs, childSpec{Race: i%3 == 2, Args: []string{fmt.Sprint(i), fmt.Sprint(per)}, Label: fmt.Sprintf("c04 shard %d", i), Timeout: 30 * time.Minute})
